@@ -44,7 +44,7 @@ def gen_target(r, depth):
     k = r.random()
     if depth <= 0 or k < 0.45:
         if r.random() < 0.75:
-            n = r.choice([10, 11, 12])
+            n = r.choice([10, 11, 12, 10, 11, 12, 1, 2, 3])
             return ["n", str(n)], nm(n)
         return ["c"], r.choice(["1", "'s'", "true", "none", "2.5"])
     items = [gen_target(r, depth - 1) for _ in range(r.randint(1, 3))]
@@ -108,7 +108,7 @@ def gen_skel(r, depth, budget):
                "autoescape": "{% autoescape true %}" + sb + "{% endautoescape %}"}[form]
         if form == "autoescape":       # Scope([ScopedEvalContextModifier(body)])
             return ["W", "0", "1", "Z"] + tb, src
-        return ["W", "1" if form == "with" else "0"] + tb, src
+        return ["W", "1"] + tb, src      # with / filter block / block set: inner frame and a visitor scope
     if k < 0.84:
         ps = [r.choice([10, 11, 12, 2, 3, 8, 9]) for _ in range(r.randint(0, 3))]
         tb, sb = body()
